@@ -5,7 +5,8 @@ Spec: spec/Heartbeat.tla - rounds of ConnectionHeartbeat.run over the connection
       event loop delivering the answer to the OPTIONS request (SUPPORTED, error reply, transport error, close) or
       nothing (timeout); per connection idle/busy, healthy/defunct/closed, in_flight 0..max (at capacity included),
       socket writable or stuck (send_msg raises ConnectionBusy, which is not a ConnectionException);
-      traffic and deaths between rounds.
+      traffic between rounds delivered through the real process_msg (request/response, late answer to an orphaned
+      stream, pushed event) and deaths between rounds.
 TLC : invariants AtMostOneHeartbeat, RoundPost (idle+healthy -> exactly one OPTIONS; busy -> none, idle flag reset;
       success -> in_flight and available stream ids as before; failure/silence -> defunct and owner notified exactly
       once; dead -> handed back once), NoLeak (a live connection between rounds always has its initial capacity).
@@ -42,7 +43,7 @@ META = {
 INVARIANTS = ["TypeOK", "AtMostOneHeartbeat", "RoundPost", "NoLeak"]
 ACTIONS = ["StartRound", "SendStep", "EndSend", "WaitStep", "EndWait", "FailStep", "EndRound", "Answer", "Traffic"]
 WITNESSES = ["Witness_SuccessAtLevel", "Witness_Timeout", "Witness_Full", "Witness_SecondRoundOk", "Witness_LateAnswer",
-             "Witness_StuckAmongHealthy"]
+             "Witness_StuckAmongHealthy", "Witness_LateTraffic", "Witness_EventTraffic"]
 MAX_REPORT = 10
 
 
@@ -97,8 +98,8 @@ def signature(d):
 def describe(consts, states, upto=None):
     from harness.replay import heartbeat as hb
     acts = hb.actions_of(states)
-    return {"constants": dict(consts, Levels=sorted(consts["Levels"])),
-            "init": {str(n): dict(r, free=list(r["free"])) for n, r in states[0]["conn"].items()},
+    return {"constants": dict(consts, Levels=sorted(consts["Levels"]), TrafficKinds=sorted(consts["TrafficKinds"])),
+            "init": {str(n): dict(r, free=list(r["free"]), orph=list(r["orph"])) for n, r in states[0]["conn"].items()},
             "actions": acts if upto is None else acts[:upto]}
 
 
@@ -159,18 +160,20 @@ def run(ctx):
     from harness.replay import heartbeat as hb
     base = {"MaxId": 2, "InitFree": 1}
     if ctx.quick:
-        replayed = [("1pool-1round", dict(base, NPools=1, Rounds=1, Levels={0, 1, 2})),
-                    ("1pool-2rounds", dict(base, NPools=1, Rounds=2, Levels={1}))]
-        tlc_only = [("2pools-1round", dict(base, NPools=2, Rounds=1, Levels={0, 2}))]
+        replayed = [("1pool-1round", dict(base, NPools=1, Rounds=1, Levels={0, 1, 2}, TrafficKinds={"late", "event"})),
+                    ("1pool-2rounds", dict(base, NPools=1, Rounds=2, Levels={1}, TrafficKinds={"reqresp"}))]
+        tlc_only = [("2pools-1round", dict(base, NPools=2, Rounds=1, Levels={0, 2}, TrafficKinds={"late"}))]
     else:
-        replayed = [("1pool-2rounds", dict(base, NPools=1, Rounds=2, Levels={0, 1, 2})),
-                    ("2pools-1round", dict(base, NPools=2, Rounds=1, Levels={0, 2}))]
-        tlc_only = [("1pool-3rounds", dict(base, NPools=1, Rounds=3, Levels={0, 1, 2})),
-                    ("2pools-2rounds", dict(base, NPools=2, Rounds=2, Levels={0, 2}))]
+        replayed = [("1pool-1round", dict(base, NPools=1, Rounds=1, Levels={0, 1, 2}, TrafficKinds={"reqresp", "late", "event"})),
+                    ("1pool-2rounds", dict(base, NPools=1, Rounds=2, Levels={0, 1, 2}, TrafficKinds={"reqresp"})),
+                    ("2pools-1round", dict(base, NPools=2, Rounds=1, Levels={0, 2}, TrafficKinds={"late"}))]
+        tlc_only = [("1pool-3rounds", dict(base, NPools=1, Rounds=3, Levels={0, 1, 2}, TrafficKinds={"reqresp"})),
+                    ("1pool-2rounds-late", dict(base, NPools=1, Rounds=2, Levels={1, 2}, TrafficKinds={"late", "event"})),
+                    ("2pools-2rounds", dict(base, NPools=2, Rounds=2, Levels={0, 2}, TrafficKinds={"reqresp"}))]
     ctx.note("models_replayed", [l for l, _ in replayed])
     ctx.note("models_tlc_only", [l for l, _ in tlc_only])
 
-    wconsts = dict(base, NPools=1, Rounds=2, Levels={1, 2})     # small model: reachable there => reachable in the larger ones
+    wconsts = dict(base, NPools=1, Rounds=2, Levels={1, 2}, TrafficKinds={"reqresp", "late", "event"})     # small model: reachable there => reachable in the larger ones
     for w in WITNESSES:
         wcfg = tlc.write_cfg(os.path.join(ctx.scratch, w + ".cfg"), constants=wconsts, invariants=[w], deadlock=False)
         wres = tlc.check_model("Heartbeat", wcfg, ctx.scratch, timeout=600)
